@@ -37,7 +37,7 @@ fn run_bin(bin: &str, query: &str, mode: &str, input: &[u8]) -> Option<(Vec<u8>,
 
 /// queries that route data through every unordered container of the implementation
 fn query(r: &mut Rng) -> (String, &'static str) {
-    match r.below(12) {
+    match r.below(13) {
         0 => ("* | json".into(), "nested-object-key-order"),
         1 => ("* | json | fields o, m, k".into(), "nested-object-key-order"),
         2 => (format!("* | json | {} | where _count > 0", "count by k"), "agg-then-row-operator"),
@@ -49,6 +49,7 @@ fn query(r: &mut Rng) -> (String, &'static str) {
         8 => ("* | json | count_distinct(s), min(x) by k | sort by k".into(), "explicit-sort"),
         9 => ("* | json | sort by n".into(), "raw-sort"),
         10 => ("* | json | count by arr".into(), "array-keys"),
+        11 => ((*r.pick(&["* | json | count by big", "* | json | count by big | total(_count) as t", "* | json | count, max(n) by big | limit 3", "* | json | sort by big"])).to_string(), "big-int-keys"),
         _ => (gen::json_pipeline(r, &gen::QueryCfg { allow_agg: true, allow_sort: true, max_stages: 4 }), "generated"),
     }
 }
@@ -72,7 +73,11 @@ pub fn check(ctx: &mut Ctx) {
         let mut r = ctx.rng.fork();
         let (q, family) = query(&mut r);
         let rows = 2 + r.below(14);
-        let input = gen::json_input(&mut r, rows, &gen::DocCfg { key_domain: 4, numeric_only: false }, 3);
+        let mut input = gen::json_input(&mut r, rows, &gen::DocCfg { key_domain: 4, numeric_only: false }, 3);
+        if family == "big-int-keys" {
+            // 64-bit ids above 2^53 that are neighbours as integers but the same double
+            input = (0..rows).map(|i| format!("{{\"big\":{},\"n\":{}}}\n", 1152921504606846976i64 + (i as i64 % 7), i % 3)).collect::<String>().into_bytes();
+        }
         let mode = *r.pick(&["json", "json", "logfmt", "legacy"]);
         let key = ckey(&q, &input);
         let info = serde_json::json!({"query": q, "mode": mode, "input": String::from_utf8_lossy(&input)});
